@@ -259,6 +259,9 @@ func (ef *Filter) Process(ctx context.Context, e *eventlogger.Event) (*eventlogg
 		default:
 			for i := 0; i < payloadValue.Len(); i++ {
 				f := payloadValue.Index(i)
+				if f.Kind() == reflect.Ptr && f.IsNil() {
+					continue
+				}
 				if ef.ignore(f) {
 					continue
 				}
@@ -408,6 +411,9 @@ func (ef *Filter) filterField(ctx context.Context, v reflect.Value, filterOverri
 			default:
 				for i := 0; i < field.Len(); i++ {
 					f := field.Index(i)
+					if f.Kind() == reflect.Ptr && f.IsNil() {
+						continue
+					}
 					if ef.ignore(f) {
 						continue
 					}
